@@ -77,6 +77,17 @@ CLAIMED.update({
         ref="DESIGN.md 3/C20"),
 })
 
+CLAIMED.update({
+    "C19": dict(
+        text="Proof on the real merger.py: merge_stubs picks the .pyi side symmetrically (ValueError iff none); for an arbitrary stub member: stub-only => runtime=False and "
+             "added, existing member never replaced, stub alias skipped, kind mismatch silent, same kind => recursive merge of exactly that pair, no member deleted, no "
+             "exception (alias errors suppressed); for an arbitrary stub parameter: annotation overwritten for the same-named runtime parameter, returns from the stub; "
+             "docstring kept unless missing; attribute annotation; overload lists moved when non-empty; no iteration can abort its loop. "
+             "Order independence and the three placements are a bounded native tier.",
+        note="One Skolem element per loop (generic-iteration mode) plus the proved fact that no iteration raises; set_member/get_member by contract (C16).",
+        ref="DESIGN.md 3/C19"),
+})
+
 NA_REASON = {
     "C17": "relates two whole-program analyses through CPython's run-time object model; a contract for the inspector would have to assume the very "
            "object model the property compares against, so no obligation over /repo code alone implies agreement (DESIGN.md section 4)",
